@@ -32,7 +32,7 @@ PROFILE = S.GENERAL.but(
 
 
 def budget(tier):
-    return dict(examples=8000 if tier == 'quick' else 400000)
+    return dict(examples=8000 if tier == 'quick' else 200000)
 
 
 def strategy(tier):
